@@ -1,10 +1,10 @@
 #!/bin/bash
 # adopt a round-2 seeded change: confirm it (applies, builds, demo passes on clean / fails with patch,
 # touched packages' other tests unchanged), run the property's check against it, store it under seeded/
-# usage: scripts/adopt.sh Cnn k
+# usage: scripts/adopt.sh Cnn k [round-prefix, default r2]
 set -u
 cd "$(dirname "$0")/.."
-P=$1; K=$2; OUT=/tmp/r2-$P-out; WT=/tmp/adopt-$P; ID=$P-$K
+P=$1; K=$2; R=${3:-r2}; OUT=/tmp/$R-$P-out; WT=/tmp/adopt-$P; ID=$P-$K
 export GOFLAGS=-mod=mod GOPROXY=off GOSUMDB=off GOTOOLCHAIN=local
 [ -f $OUT/patch.diff ] || { echo "$ID: no patch"; exit 1; }
 rm -rf $WT; git -C /repo worktree prune; git -C /repo worktree add -q --detach $WT HEAD || exit 1
